@@ -42,6 +42,16 @@ def run(ctx):
                        chanBuf=rnd.choice([0, 256]), leaders=[1], nbrokers=1, abortedReverse=rnd.random() < 0.5)
             scs.append({"name": "txn-markerstart-%d-%s" % (k, iso), "family": "txn-markerstart", "cfg": cfg, "logs": {"0": lg},
                         "consume": [{"part": 0, "start": off}], "expectAll": {"0": True}, "steps": []})
+    # coordinator-side aborts (marker epoch = data epoch + 1) followed by a COMMITTED transaction of the same producer id, all in
+    # one response: the marker must end the aborted state whatever epoch it carries
+    ca = [l for (l, off) in reuse if any(b["ctl"] == "abort" and b["offs"][0] == off for b in l)
+          and any(b["ctl"] == "commit" and b["offs"][0] > off for b in l)]
+    for k, l in enumerate(ca[:100] if quick else ca[:1500]):
+        lg = cc.add_codec(l, rnd, coord=True)
+        cfg = dict(version=rnd.choice(cc.V2_VERSIONS), iso="rc", fetchDefault=1 << 20, chanBuf=rnd.choice([0, 256]), leaders=[1], nbrokers=1,
+                   abortedReverse=rnd.random() < 0.5)
+        scs.append({"name": "txn-coordabort-%d" % k, "family": "txn-coordabort", "cfg": cfg, "logs": {"0": lg},
+                    "consume": [{"part": 0, "start": rnd.choice([0, 0, -2])}], "expectAll": {"0": True}, "steps": []})
     # the log start offset (DeleteRecords / retention) lies INSIDE an aborted transaction: the broker still lists the
     # transaction with its original first offset (below the log start); its remaining records must stay invisible
     inside = []
